@@ -554,7 +554,8 @@ func (fr *Framer) checkFrameOrder(f Frame) error {
 	}
 
 	switch fh.Type {
-	case FrameHeaders, FrameContinuation:
+	case FrameHeaders, FramePushPromise, FrameContinuation:
+		// END_HEADERS is 0x4 for all three frame types.
 		if fh.Flags.Has(FlagHeadersEndHeaders) {
 			fr.lastHeaderStream = 0
 		} else {
